@@ -234,7 +234,7 @@ func EnsureFileInSubDir(filePath string, dir string) (err error) {
 	if err != nil {
 		return err
 	}
-	if strings.HasPrefix(rel, "..") {
+	if rel == ".." || strings.HasPrefix(rel, ".."+string(filepath.Separator)) {
 		return fmt.Errorf("file is out of scope: %v", rel)
 	}
 	return nil
